@@ -207,16 +207,20 @@ def compare_lines(stdout, exp):
     if not exp:
         return None if stdout == "" else "printed %r, split() finds nothing" % (stdout[:80],)
 
-    def match(pos, i):
-        if i == len(exp):
-            return pos == len(stdout)
-        for a in exp[i]:
-            t = a + "\n"
-            if stdout.startswith(t, pos) and match(pos + len(t), i + 1):
-                return True
-        return False
-
-    if match(0, 0):
+    positions = {0}
+    for i, alts in enumerate(exp):
+        nxt = set()
+        for pos in positions:
+            for a in alts:
+                t = a + "\n"
+                if stdout.startswith(t, pos):
+                    nxt.add(pos + len(t))
+        if not nxt:
+            pos = min(positions)
+            return "output line for detection %d is %r, expected one of %r (%d detections expected, %d lines printed)" % (
+                i + 1, stdout[pos : pos + 60].split("\n")[0], sorted(alts)[:3], len(exp), stdout.count("\n"))
+        positions = nxt
+    if len(stdout) in positions:
         return None
     return "printed %r, expected %r" % (stdout.split("\n")[:4], [sorted(a) for a in exp][:4])
 
@@ -434,6 +438,25 @@ def misc(rep, tier):
             msg = "defaults recording produced no detection (harness)"
         if msg:
             rep.violation("cli defaults", msg, {"kind": "climisc", "what": "defaults"})
+    # a long run: more than 1024 / 2048 detections, ids keep counting
+    spec = "L." * 2100
+    RECS["many"] = dict(rate=1000, sw=2, ch=1, spec=spec)
+    rep.add("evaluations")
+    opts = dict(n=0.01, m=0.01, s=0, a=0.01, e=50)
+    res = run_cli(argv_from(opts), "many", "wav", wd)
+    msg = check_run(res, "many", opts)
+    if msg:
+        rep.violation("cli many detections", msg[:400], {"kind": "climisc", "what": "many"})
+    # --printf: typed escapes (\\n \\t \\r) together with ordinary and non-ASCII text
+    for pf in ("{id}\\t{start} -> {end}", "{id} \u00c9v\u00e9nement {start}", "{id}\\t\u00c9v\u00e9nement \u2192 {start}\\n--", "[{id}] 100% {start}",
+               "{id} back\\\\slash {start}"):
+        rep.add("evaluations")
+        opts = dict(n=0.02, m=0.3, s=0.02, a=0.01, e=50)
+        res = run_cli(argv_from(opts) + ["--printf", pf], "mono16", "wav", wd)
+        want_pf = pf.replace("\\n", "\n").replace("\\t", "\t").replace("\\r", "\r")
+        msg = check_run(res, "mono16", opts, want_pf)
+        if msg:
+            rep.violation("cli printf %r" % pf, msg[:300], {"kind": "climisc", "what": "printf"})
     shutil.rmtree(wd, ignore_errors=True)
 
 
@@ -546,6 +569,13 @@ def run(prop, tier):
         tasks.append(("fmt", (lo, min(lo + step, hi))))
     for lo in (3599000, 35999000, 359999000):
         tasks.append(("fmt", (lo, lo + 2000)))
+    # the natural end of a run under every interleaving (no Ctrl-C): printing must not depend on who is late
+    from . import chk_workers
+
+    chk_workers.lib()
+    for p_ in (["AaA", "AAAA"] if quick else ["A", "AaA", "AAAA", "AaAaA"]):
+        for argv_ in ([], ["-o", "@ev_{id}.wav"]):
+            tasks.append(("sched", (dict(kind="cli", pattern=p_, observers=[], split="s0", argv=argv_), 1, 0, "sync", None, None)))
     for part in common.pmap(_dispatch, tasks):
         rep.merge(part)
     if not quick:
@@ -563,12 +593,22 @@ def run(prop, tier):
 
 
 def _dispatch(t):
+    if t[0] == "sched":
+        from . import chk_workers
+
+        part = chk_workers.work(t[1])
+        part["cov"].pop("outcomes", None)
+        return part
     return work_core(t[1]) if t[0] == "core" else work_formatter(t[1])
 
 
 def replay(case):
     lib()
     k = case["kind"]
+    if k == "sched":
+        from . import chk_workers
+
+        return chk_workers.replay(case)
     if k == "cli":
         wd = os.path.join(common.scratch_dir(), "clireplay")
         opts = case["opts"]
